@@ -164,7 +164,9 @@ func (s *Store) AddSourceSnapshot(ckpt *jobpb.SourceRunnerCheckpointCompleteRequ
 func (s *Store) RegisterSourceSplitter(splitter connectors.SourceSplitter) {
 	s.stateMu.Lock()
 	defer s.stateMu.Unlock()
-	s.sourceSplitters = append(s.sourceSplitters, splitter)
+	// The job creates a new splitter every time it (re)deploys an assembly and
+	// only the current one is checkpointed.
+	s.sourceSplitters = []connectors.SourceSplitter{splitter}
 }
 
 func (s *Store) finishSnapshot(snap *jobSnapshot) {
